@@ -18,7 +18,6 @@ The recognisers are SEMANTIC: they do not match source text, variable names or t
 """
 import ast
 import builtins as _builtins
-import http as _http
 
 
 # =====================================================================================================================
@@ -207,7 +206,7 @@ def as_cond(t):
             return TRUE
     if t[0] == 'phi':
         return disj([conj([t[1], as_cond(t[2])]), conj([neg(t[1]), as_cond(t[3])])])
-    if t[0] in ('hex', 'hash', 'hmac', 'func', 'bound', 'lambda', 'ext', 'self', 'now'):
+    if t[0] in ('hex', 'hash', 'hmac', 'func', 'rawfunc', 'bound', 'lambda', 'ext', 'self', 'now'):
         return TRUE
     return ('truthy', t)
 
@@ -216,7 +215,7 @@ def is_none_cond(t):
     ok, v = const_of(t)
     if ok:
         return TRUE if v is None else FALSE
-    if t[0] in ('S', 'dict', 'list', 'tuple', 'set', 'quote', 'urlencode', 'hex', 'hash', 'hmac', 'now', 'func', 'bound', 'lambda', 'self', 'ref'):
+    if t[0] in ('S', 'dict', 'list', 'tuple', 'set', 'quote', 'urlencode', 'hex', 'hash', 'hmac', 'now', 'func', 'rawfunc', 'bound', 'lambda', 'self', 'ref'):
         return FALSE
     if t[0] == 'phi':
         return disj([conj([t[1], is_none_cond(t[2])]), conj([neg(t[1]), is_none_cond(t[3])])])
@@ -337,7 +336,9 @@ class Mod:
         return '.'.join(parts + ([module] if module else []))
 
 
-PURE_DECORATORS = ('functools.lru_cache', 'functools.cache', 'functools.wraps', 'staticmethod', 'builtins.staticmethod',
+PROPERTY_DECORATORS = ('builtins.property',)
+# (memoising decorators are NOT transparent: a cached clock reading or a cached key is a different program)
+PURE_DECORATORS = PROPERTY_DECORATORS + ('functools.wraps', 'staticmethod', 'builtins.staticmethod',
                    'contextlib.contextmanager', 'contextlib.asynccontextmanager', 'abc.abstractmethod',
                    'backoff.on_exception', 'backoff.on_predicate', 'replicat.utils.requires_auth', 'replicat.utils.disable_gc')
 LOGGER_METHODS = ('debug', 'info', 'warning', 'warn', 'error', 'exception', 'critical', 'log')
@@ -389,7 +390,7 @@ class Sym:
             return t
         if t and t[0] == 'ref':
             return self.deref(st.heap.get(t[1], ('unknown', 'dangling', t[1])), st, depth + 1)
-        if t and t[0] in ('func', 'bound', 'lambda', 'k', 'ext'):
+        if t and t[0] in ('func', 'rawfunc', 'bound', 'lambda', 'k', 'ext'):
             return t
         if not self._has_ref(t):
             return t
@@ -400,7 +401,7 @@ class Sym:
             return False
         if t and t[0] == 'ref':
             return True
-        if t and t[0] in ('func', 'bound', 'lambda'):
+        if t and t[0] in ('func', 'rawfunc', 'bound', 'lambda'):
             return False
         return any(self._has_ref(x, depth + 1) for x in t if isinstance(x, tuple))
 
@@ -456,6 +457,8 @@ class Sym:
                 self.guards = saved
             finally:
                 self.modbusy.discard(name)
+            if v[0] in ('dict', 'list', 'set') and self.module_mutates(name):
+                v = ('unknown', 'module-level container that the module changes', name)
             self.modcache[name] = v
             return v
         if name in m.classes:
@@ -465,6 +468,22 @@ class Sym:
         if hasattr(_builtins, name):
             return ('ext', 'builtins.' + name)
         return ('unknown', 'unbound name', name)
+
+    MUTATORS = ('append', 'extend', 'insert', 'pop', 'popitem', 'remove', 'clear', 'update', 'setdefault', 'add', 'discard', 'sort', 'reverse',
+                '__setitem__', '__delitem__')
+
+    def module_mutates(self, name):
+        """is the module-level container `name` changed anywhere (item stores, mutating methods, rebinding through `global`)?"""
+        for n in ast.walk(self.mod.tree):
+            if isinstance(n, (ast.Subscript, ast.Attribute)) and isinstance(n.ctx, (ast.Store, ast.Del)) and isinstance(n.value, ast.Name) and n.value.id == name:
+                return True
+            if isinstance(n, ast.Call) and isinstance(n.func, ast.Attribute) and n.func.attr in self.MUTATORS and isinstance(n.func.value, ast.Name) and n.func.value.id == name:
+                return True
+            if isinstance(n, (ast.Global, ast.Nonlocal)) and name in n.names:
+                return True
+            if isinstance(n, ast.AugAssign) and isinstance(n.target, ast.Name) and n.target.id == name:
+                return True
+        return False
 
     # ------------------------------------------------------------------ attributes of self
     def self_param(self, fn):
@@ -523,12 +542,19 @@ class Sym:
         if name in st.selfw:
             return st.selfw[name]
         if name in self.methods:
-            return ('bound', self.methods[name])
+            fn = self.methods[name]
+            if any(self.dotted_of_decorator(d) in PROPERTY_DECORATORS for d in fn.decorator_list):
+                return self.call_user(fn, None, ('self',), [], [], st)
+            return ('bound', fn)
         attrs = self.init_attrs() if not (self.stack and self.stack[0].name == '__init__' and self.ctor_attrs == {}) else {}
         if name in attrs:
             return attrs[name]
         if name in self.class_assigns and name not in getattr(self, 'state_attrs', ()):
-            return self.ev(self.class_assigns[name], St())
+            tmp = St()
+            v = self.deref(self.ev(self.class_assigns[name], tmp), tmp)
+            if v[0] in ('dict', 'list', 'set'):
+                return ('unknown', 'class-level container', name)
+            return v
         return ('selfattr', name)
 
     # ------------------------------------------------------------------ expressions
@@ -588,9 +614,6 @@ class Sym:
             return [e[:-1] + (tuple(e[-1]) + tuple(guard),) for e in t[1]]
         if t[0] == 'phi' and t[2][0] == 'dict' and t[3][0] == 'dict':
             return self.spread_entries(t[2], tuple(guard) + (t[1],)) + self.spread_entries(t[3], tuple(guard) + (neg(t[1]),))
-        ok, v = const_of(t)
-        if ok and v is None:
-            return [('spread', t, tuple(guard))]
         return [('spread', t, tuple(guard))]
 
     def dict_set(self, entries, k, v, guard):
@@ -668,7 +691,7 @@ class Sym:
             return ('dict', tuple(entries))
         oa, va = const_of(a)
         ob, vb = const_of(b)
-        if oa and ob and not isinstance(va, (str, bytes)) or (oa and ob and isinstance(node.op, ast.Mult)):
+        if oa and ob and (not isinstance(va, (str, bytes)) or isinstance(node.op, ast.Mult)):
             try:
                 return lift(eval(compile(ast.Expression(ast.BinOp(ast.Constant(va), node.op, ast.Constant(vb))), '<c>', 'eval'), {}))  # noqa: S307
             except Exception:  # noqa: BLE001
@@ -1018,6 +1041,8 @@ class Sym:
         return self.call_value(self.ev(node.func, st), args, kwargs, st)
 
     def call_value(self, f, args, kwargs, st):
+        if f[0] == 'rawfunc':
+            return self.call_user(f[1], f[2], None, args, kwargs, st, raw=True)
         if f[0] == 'func':
             return self.call_user(f[1], f[2], None, args, kwargs, st)
         if f[0] == 'bound':
@@ -1099,9 +1124,24 @@ class Sym:
             todo += list(ast.iter_child_nodes(n))
         return False
 
-    def call_user(self, fn, closure, self_term, args, kwargs, st):
+    def call_user(self, fn, closure, self_term, args, kwargs, st, raw=False):
         decos = [self.dotted_of_decorator(d) for d in fn.decorator_list]
-        if any(d not in PURE_DECORATORS for d in decos):
+        if any(d not in PURE_DECORATORS for d in decos) and not raw:
+            # decorators defined in this module (timing, logging …) are applied symbolically: the call goes through their wrappers
+            f = ('rawfunc', fn, closure)
+            ok = fn not in self.stack and len(self.stack) < self.MAX_DEPTH
+            for d, name in reversed(list(zip(fn.decorator_list, decos))):
+                if name in PURE_DECORATORS or not ok:
+                    continue
+                dv = self.ev(d, St())
+                if dv[0] not in ('func', 'lambda', 'partial'):
+                    ok = False
+                    break
+                f = self.deref(self.call_value(dv, [f], [], st), st)
+                if f[0] not in ('func', 'lambda', 'rawfunc'):
+                    ok = False
+            if ok:
+                return self.call_value(f, ([self_term] if self_term is not None else []) + list(args), kwargs, st)
             t = ('call', ('func', fn, None), tuple(self.deref(a, st) for a in args), tuple((k, self.deref(v, st)) for k, v in kwargs), self.fresh())
             self.trace.append((tuple(self.guards), ('opaque-decorator', fn.name, tuple(decos))))
             return t
@@ -1520,6 +1560,17 @@ class Sym:
             return args[0]
         return None
 
+    def ext_functools_reduce(self, raw, args, kw, st):
+        if kw or len(args) not in (2, 3):
+            return None
+        items = self.concrete_items(args[1], st)
+        if items is None or len(items) > self.MAX_UNROLL or (len(args) == 2 and not items):
+            return None
+        acc = args[2] if len(args) == 3 else items.pop(0)
+        for x in items:
+            acc = self.deref(self.call_value(raw[0], [acc, x], [], st), st)
+        return acc
+
     def ext_functools_partial(self, raw, args, kw, st):
         if not args:
             return None
@@ -1642,6 +1693,8 @@ class Sym:
                 st.selfw[target.attr] = v
             elif obj[0] == 'ref':
                 st.heap[obj[1]] = self.unknown('attribute store')
+            else:
+                self.trace.append((tuple(self.guards), ('mutated', self.deref(obj, st))))
         elif isinstance(target, ast.Subscript):
             holder = target.value
             obj = self.ev(holder, st)
@@ -1652,6 +1705,8 @@ class Sym:
                 st.heap[obj[1]] = self.unknown('item store')
             else:
                 d = self.deref(obj, st)
+                if d[0] not in ('dict', 'phi', 'param', 'k'):
+                    self.trace.append((tuple(self.guards), ('mutated', d)))
                 base = self.spread_entries(d, ())
                 new = self.new_ref(st, ('dict', tuple(self.dict_set(base, key, v, ()))))
                 # the holder now denotes the updated mapping (aliases of a non-container value are not tracked)
@@ -1699,7 +1754,6 @@ class Sym:
 
     def exec_block(self, stmts, st):
         """→ (state when control falls through | None, tree of the returns met on the way | None)"""
-        R = None
         depth = len(self.guards)
         try:
             return self._exec_block(stmts, st)
@@ -1753,7 +1807,7 @@ class Sym:
 
     def st_AugAssign(self, s, st):
         load = ast.copy_location(ast.BinOp(left=self._as_load(s.target), op=s.op, right=s.value), s)
-        cur = self.ev(s.target if not isinstance(s.target, ast.Name) else ast.Name(id=s.target.id, ctx=ast.Load()), st) if isinstance(s.target, ast.Name) else None
+        cur = self.lookup(s.target.id, st) if isinstance(s.target, ast.Name) else None
         if cur is not None and cur[0] == 'ref' and st.heap.get(cur[1], ('?',))[0] == 'list' and isinstance(s.op, ast.Add):
             items = self.concrete_items(self.ev(s.value, st), st)
             st.heap[cur[1]] = ('list', st.heap[cur[1]][1] + tuple(items)) if items is not None else self.unknown('list +=')
@@ -1951,7 +2005,6 @@ class Sym:
         inner = st.copy()
         inner.env[var] = chunk
         self.guards.append(('loop', chunk[1]))
-        tmark = len(self.trace)
         fall, r = self.exec_block(body, inner)
         self.guards.pop()
         if fall is None or r is not None:
@@ -2144,6 +2197,8 @@ class Sym:
 NL = ('c', '\n')
 CLIENT_CTORS = ('httpx.AsyncClient', 'httpx.Client')
 HTTP_VERBS = ('get', 'put', 'post', 'head', 'delete', 'patch', 'options')
+CLIENT_NEUTRAL_OPTIONS = ('timeout', 'event_hooks', 'limits', 'http1', 'http2', 'verify', 'cert', 'trust_env', 'max_redirects', 'follow_redirects',
+                          'transport', 'mounts', 'proxy', 'proxies', 'default_encoding')
 BACKEND_API = ('exists', 'upload', 'upload_stream', 'download', 'download_stream', 'list_files', 'delete')
 
 
@@ -2236,18 +2291,32 @@ class Req:
 def requests_of(sym, name):
     """evaluate the public method `name` on symbolic arguments → the requests it hands to the HTTP client (in order)"""
     val, st, trace = sym.run_method(name)
-    reqs, built, stray = [], {}, []
+    reqs, built = [], []
+    def base_of(x):
+        while isinstance(x, tuple) and x and x[0] in ('attr', 'sub'):
+            x = x[1]
+        return x
     for g, t in trace:
+        if t[0] == 'mutated' or (t[0] == 'meth' and not is_client(t[1])):
+            # a request object that is changed (or handed its own methods) between build_request and send is not what was signed
+            if any(b[0] == base_of(t[1]) for b in built):
+                raise Unrec(f'{name}: the request is modified after it was built')
+            continue
+        if t[0] == 'meth' and is_client(t[1]):
+            extra = sorted(k for k, _ in t[1][3] if k not in CLIENT_NEUTRAL_OPTIONS)
+            if extra:
+                raise Unrec(f'{name}: the HTTP client is constructed with options that change what is sent: {extra}')
         if t[0] == 'opaque-decorator':
             raise Unrec(f'{name}: call through a decorator that is not understood: {t[1]} {t[2]}')
         if t[0] == 'meth' and is_client(t[1]):
             m, args, kw = t[2], list(t[3]), dict(t[4])
             if m == 'build_request':
-                built[t] = (args, kw)
+                built.append((t, args, kw))
             elif m == 'send':
-                if not args or args[0] not in built:
+                hit = [b for b in built if args and b[0] == args[0]]
+                if not hit:
                     raise Unrec(f'{name}: send() of something that is not a request built here')
-                a, k = built[args[0]]
+                _, a, k = hit[-1]
                 reqs.append(_mk_req(name, a, k, dict(kw, **{'#rest': tuple(args[1:])}) if len(args) > 1 else kw, g))
             elif m in ('request', 'stream'):
                 reqs.append(_mk_req(name, args, kw, {}, g))
@@ -2311,20 +2380,26 @@ CATCH_ALL = ('BaseException', 'Exception')
 
 
 class FState(tuple):
-    """(pos, truncated, unlinked)"""
+    """(pos, truncated, unlinked, flags) — flags: local names that hold a known True / False (success flags tested in `finally`)"""
     __slots__ = ()
 
-    def __new__(cls, pos='entry', truncated=False, unlinked=False):
-        return tuple.__new__(cls, (pos, truncated, unlinked))
+    def __new__(cls, pos='entry', truncated=False, unlinked=False, flags=()):
+        return tuple.__new__(cls, (pos, truncated, unlinked, tuple(sorted(flags))))
 
     pos = property(lambda s: s[0])
     truncated = property(lambda s: s[1])
     unlinked = property(lambda s: s[2])
+    flags = property(lambda s: s[3])
 
     def set(self, **kw):
-        d = dict(pos=self[0], truncated=self[1], unlinked=self[2])
+        d = dict(pos=self[0], truncated=self[1], unlinked=self[2], flags=self[3])
         d.update(kw)
         return FState(**d)
+
+    def flag(self, name, value):
+        """value None: forget"""
+        rest = tuple((n, v) for n, v in self[3] if n != name)
+        return self.set(flags=rest + (((name, value),) if value is not None else ()))
 
 
 class Out:
@@ -2576,6 +2651,29 @@ class Flow:
             o.fall = nxt
         return o
 
+    def bind_consts(self, fn, node, off, ctx):
+        """integer arguments that are literals (or defaults) are known inside the helper: `def rewind(s, to=0): s.seek(to)`"""
+        a = fn.args
+        pos = list(a.posonlyargs) + list(a.args)
+        consts = {}
+        allp = pos + list(a.kwonlyargs)
+        defaults = dict(zip([p.arg for p in pos[len(pos) - len(a.defaults):]], a.defaults)) if a.defaults else {}
+        defaults.update({p.arg: dflt for p, dflt in zip(a.kwonlyargs, a.kw_defaults) if dflt is not None})
+        given = {}
+        for i, arg in enumerate(node.args):
+            if not isinstance(arg, ast.Starred) and i + off < len(pos):
+                given[pos[i + off].arg] = arg
+        for k in node.keywords:
+            if k.arg is not None:
+                given[k.arg] = k.value
+        for p in allp:
+            src = given.get(p.arg, defaults.get(p.arg))
+            if src is not None:
+                v = self.int_value(src, ctx) if p.arg in given else self.int_value(src, {})
+                if v is not None:
+                    consts[p.arg] = v
+        return consts
+
     def call(self, fn, with_self, passed, node, st, ctx):
         o = Out()
         if fn in self.stack or len(self.stack) >= self.MAX_DEPTH:
@@ -2602,6 +2700,9 @@ class Flow:
                 tracked.add(k)
             else:
                 tracked.add('*')
+        if fn in ctx['nested'].values():
+            # a nested function sees the stream of the enclosing function through its closure
+            tracked |= {n for n in ctx['tracked'] if n not in {p.arg for p in pos + list(a.kwonlyargs)}}
         if '*' in tracked:
             self.consume_nodes.append((ctx['fn'], node, st))
             st = st.set(pos='moved')
@@ -2609,33 +2710,16 @@ class Flow:
             if not ctx['quiet']:
                 o.exc.add((st, False))
             return o
-        # integer arguments that are literals (or defaults) are known inside the helper: `def rewind(s, to=0): s.seek(to)`
-        consts = {}
-        allp = pos + list(a.kwonlyargs)
-        defaults = dict(zip([p.arg for p in pos[len(pos) - len(a.defaults):]], a.defaults))
-        defaults.update({p.arg: dflt for p, dflt in zip(a.kwonlyargs, a.kw_defaults) if dflt is not None})
-        given = {}
-        for i, arg in enumerate(node.args):
-            if not isinstance(arg, ast.Starred) and i + off < len(pos):
-                given[pos[i + off].arg] = arg
-        for k in node.keywords:
-            if k.arg is not None:
-                given[k.arg] = k.value
-        for p in allp:
-            src = given.get(p.arg, defaults.get(p.arg))
-            if src is not None:
-                v = self.int_value(src, ctx)
-                if v is not None:
-                    consts[p.arg] = v
+        consts = self.bind_consts(fn, node, off, ctx)
         if tracked:
             if fn not in self.entries:
                 self.entry_tracked[fn] = set(tracked)
                 self.seeks_at_entry[fn] = self.seeks
                 self.consumes_at_entry[fn] = len(self.consume_nodes)
             self.entries.setdefault(fn, set()).add(st)
-        r = self.function(fn, tracked, {st}, quiet=ctx['quiet'], consts=consts)
-        o.fall = r.fall | r.ret
-        o.exc = r.exc
+        r = self.function(fn, tracked, {st.set(flags=())}, quiet=ctx['quiet'], consts=consts)
+        o.fall = {x.set(flags=st.flags) for x in r.fall | r.ret}        # the helper's own flags are its own
+        o.exc = {(x.set(flags=st.flags), h) for x, h in r.exc}
         return o
 
     # ------------------------------------------------------------------ statements
@@ -2668,6 +2752,12 @@ class Flow:
             return Out(states)
         if isinstance(s, (ast.Pass, ast.Import, ast.ImportFrom, ast.Global, ast.Nonlocal, ast.ClassDef)):
             return Out(states)
+        yb = ctx.get('yield_body')
+        if yb is not None and isinstance(s, (ast.Expr, ast.Assign)) and s.value is yb[2]:
+            body, outer, _ = yb
+            r = self.block(body, states, dict(outer, quiet=ctx['quiet'] and outer['quiet']))
+            # `return` / `break` inside the with-body leave the helper's `try` as well; keep them as they are
+            return r
         if isinstance(s, ast.Expr):
             return self.run_expr(s.value, states, ctx)
         if isinstance(s, (ast.Assign, ast.AnnAssign, ast.AugAssign)):
@@ -2678,11 +2768,15 @@ class Flow:
                     if isinstance(t, ast.Name):
                         ctx['tracked'].add(t.id)
                 return Out(states)
+            if isinstance(s, ast.Assign) and len(targets) == 1 and isinstance(targets[0], ast.Name) and isinstance(value, ast.Constant) and isinstance(value.value, bool):
+                return Out({st.flag(targets[0].id, value.value) for st in states})
             o = self.run_expr(value, states, ctx) if value is not None else Out(states)
             for t in targets:
                 for n in ast.walk(t):
                     if isinstance(n, ast.Name) and n.id in ctx['tracked'] and isinstance(n.ctx, ast.Store):
                         ctx['tracked'].discard(n.id)
+                    if isinstance(n, ast.Name) and isinstance(n.ctx, ast.Store):
+                        o.fall = {st.flag(n.id, None) for st in o.fall}
             return o
         if isinstance(s, ast.Return):
             o = self.run_expr(s.value, states, ctx) if s.value is not None else Out(states)
@@ -2710,8 +2804,17 @@ class Flow:
             pre = self.run_expr(s.test, states, ctx)
             o = Out()
             o.exc |= pre.exc
-            a = self.block(s.body, pre.fall, ctx)
-            b = self.block(s.orelse, pre.fall, ctx)
+            # a test of a local success flag decides per state
+            test, want = s.test, True
+            while isinstance(test, ast.UnaryOp) and isinstance(test.op, ast.Not):
+                test, want = test.operand, not want
+            yes, no = set(pre.fall), set(pre.fall)
+            if isinstance(test, ast.Name):
+                known = {st: dict(st.flags).get(test.id) for st in pre.fall}
+                yes = {st for st, v in known.items() if v is None or v == want}
+                no = {st for st, v in known.items() if v is None or v != want}
+            a = self.block(s.body, yes, ctx)
+            b = self.block(s.orelse, no, ctx)
             o.absorb(a)
             o.absorb(b)
             return o
@@ -2740,6 +2843,10 @@ class Flow:
                 o.fall = e.fall
                 o.absorb(e, fall=False)
             return o
+        if isinstance(s, (ast.With, ast.AsyncWith)) and len(s.items) == 1:
+            r = self.with_user_cm(s, states, ctx)
+            if r is not None:
+                return r
         if isinstance(s, (ast.With, ast.AsyncWith)):
             o = Out()
             cur = set(states)
@@ -2763,6 +2870,61 @@ class Flow:
             res.fall |= o.fall
             return res
         return Out(states)
+
+    def is_cm_decorator(self, d):
+        if isinstance(d, ast.Call):
+            return False
+        name = self.dotted(d) or ''
+        return name in ('contextlib.contextmanager', 'contextlib.asynccontextmanager')
+
+    def with_user_cm(self, s, states, ctx):
+        """`with helper(…): BODY` where `helper` is a generator-based context manager of this module / class: the helper's body is
+        interpreted with BODY in the place of its `yield` (so an `except` / `finally` around the `yield` sees BODY's exceptions)"""
+        call = s.items[0].context_expr
+        if isinstance(call, ast.Await):
+            call = call.value
+        if not isinstance(call, ast.Call):
+            return None
+        fn, with_self = self.resolve_call(call, ctx)
+        if fn is None or not any(self.is_cm_decorator(d) for d in fn.decorator_list):
+            return None
+        yields = [n for n in ast.walk(fn) if isinstance(n, (ast.Yield, ast.YieldFrom))]
+        if len(yields) != 1 or fn in self.stack or len(self.stack) >= self.MAX_DEPTH:
+            return None
+        a = fn.args
+        pos = list(a.posonlyargs) + list(a.args)
+        off = 1 if with_self else 0
+        tracked = set()
+        for i, arg in enumerate(call.args):
+            if isinstance(arg, ast.Name) and arg.id in ctx['tracked']:
+                if isinstance(arg, ast.Starred) or i + off >= len(pos):
+                    return None
+                tracked.add(pos[i + off].arg)
+        for k in call.keywords:
+            if isinstance(k.value, ast.Name) and k.value.id in ctx['tracked']:
+                if k.arg is None:
+                    return None
+                tracked.add(k.arg)
+        # other arguments are evaluated in the caller
+        pre = Out(states)
+        for arg in list(call.args) + [k.value for k in call.keywords]:
+            if not (isinstance(arg, ast.Name) and arg.id in ctx['tracked']):
+                r = self.run_expr(arg, pre.fall, ctx)
+                pre.exc |= r.exc
+                pre.fall = r.fall
+        inner = {'fn': fn, 'tracked': tracked, 'self': pos[0].arg if with_self and pos else None, 'nested': {}, 'quiet': ctx['quiet'],
+                 'consts': self.bind_consts(fn, call, off, ctx),
+                 'locals': {n.id for n in ast.walk(fn) if isinstance(n, ast.Name) and isinstance(n.ctx, ast.Store)} | {p.arg for p in pos + list(a.kwonlyargs)},
+                 'yield_body': (s.body, ctx, yields[0])}
+        self.stack.append(fn)
+        try:
+            o = self.block(fn.body, pre.fall, inner)
+        finally:
+            self.stack.pop()
+        o.fall |= o.ret
+        o.ret = set()
+        o.exc |= pre.exc
+        return o
 
     def covers(self, htype):
         """does this `except` clause catch the exception under analysis?  True / False / 'maybe'"""
@@ -3239,14 +3401,18 @@ def section(ctx):
     # ---- every public method of the adapter is run on symbolic arguments; what reaches the HTTP client is analysed
     setup = {}
 
+    def base():
+        if 'sym' not in setup:
+            mod = Mod(src)
+            cls = adapter_class(mod)
+            setup['mod'], setup['cls'], setup['sym'] = mod, cls, Sym(mod, cls)
+        return setup['sym']
+
     def views():
         """→ {public method: [View of each request it sends]} (the evaluation is done once)"""
         if 'views' not in setup:
             try:
-                mod = Mod(src)
-                cls = adapter_class(mod)
-                sym = Sym(mod, cls)
-                setup['mod'], setup['cls'], setup['sym'] = mod, cls, sym
+                sym = base()
                 out = {}
                 for m in BACKEND_API:
                     if m not in sym.methods:
@@ -3382,8 +3548,8 @@ def section(ctx):
         """the streamed upload: the retried function around the transfer, and how the stream gets there"""
         if 'flows' not in setup:
             try:
-                views()
-                mod, cls, sym = setup['mod'], setup['cls'], setup['sym']
+                sym = base()
+                mod, cls = setup['mod'], setup['cls']
                 fl = Flow(mod, cls)
                 root, tracked, deco = retried_root(sym, fl, 'upload_stream')
                 setup['flows'] = (True, {'flow': fl, 'root': root, 'tracked': tracked, 'deco': deco, 'public': fl.methods['upload_stream'],
@@ -3516,8 +3682,7 @@ def section(ctx):
             return ast.literal_eval(node)
         except Exception:  # noqa: BLE001
             pass
-        views()
-        ok, v = const_of(setup['sym'].deref(setup['sym'].ev(node, St()), St()))
+        ok, v = const_of(base().deref(base().ev(node, St()), St()))
         if not ok:
             raise Unrec('not a constant: ' + un(node))
         return v
@@ -3568,8 +3733,8 @@ def section(ctx):
         path through one registered response hook (helper calls followed) that call is reached — directly, under
         `if not response.is_success`, after `if response.is_success: return`, or as the first statement of a `try` whose handlers
         all end in `raise`."""
-        views()
-        sym, mod = setup['sym'], setup['mod']
+        sym = base()
+        mod = setup['mod']
         clients = [v for v in sym.init_attrs().values() if is_client(v)]
         assert len(clients) == 1, f'{len(clients)} HTTP clients'
         assert len(_client_ctor_calls()) == 1, 'more than one client constructed'
